@@ -10,7 +10,6 @@ Clauses
                          its right (the "lowest" part is covered by matches_reference)
 """
 from vlib import tg
-from bounded.common import Skip
 from bounded import lib_transform as L
 
 RULE = ("all tree shapes with n<=N tokens (every partition of the tokens into root children, every "
